@@ -313,6 +313,100 @@ Definition trace (bufsz obq obqd : nat) (input : str) (sched : list nat) (eager 
    EOF comes with a later read — strings.Reader / bytes.Reader. *)
 Definition whole (input : str) : reader := mkreader input [] false.
 
+(* ---- Spec for C07: the reader on the unchunked input --------------------------
+   The same functions with no buffer and no Read calls at all: the state is the list of bytes
+   not yet consumed plus the bookkeeping.  [a_off] is offs+bsp (the offset of the next unread
+   byte), so nextPos is (a_off - a_w, a_line, a_col). *)
+Record ast := mkast {
+  a_rem : str; a_off : Z; a_line : Z; a_col : Z; a_r : N; a_w : Z; a_err : option (Z * Z * Z)
+}.
+
+Definition ahd (l : str) : N := match l with b :: _ => b | [] => RuneSelfB end.
+
+Definition apeek (a : ast) : N := ahd (a_rem a).
+Definition apeekTwo (a : ast) : N * N :=
+  match a_rem a with
+  | [] => (RuneSelfB, RuneSelfB)
+  | [x] => (x, RuneSelfB)
+  | x :: y :: _ => (x, y)
+  end.
+(* peekAt: a byte further than the buffer size ahead is never seen *)
+Definition apeekAt (bufsz i : nat) (a : ast) : N :=
+  if Nat.leb bufsz i then RuneSelfB
+  else match nth_error (a_rem a) i with Some b => b | None => RuneSelfB end.
+
+Fixpoint askip_digits (fuel bufsz i : nat) (a : ast) : nat :=
+  match fuel with
+  | O => i
+  | S f => if is_digit (apeekAt bufsz i a) then askip_digits f bufsz (S i) a else i
+  end.
+Definition azshNumRange (bufsz : nat) (a : ast) : bool :=
+  let i := askip_digits (S bufsz) bufsz 0 a in
+  if negb (apeekAt bufsz i a =? 45) then false
+  else let j := askip_digits (S bufsz) bufsz (S i) a in apeekAt bufsz j a =? 62.
+
+Definition aret (a : ast) (rem : str) (off col : Z) (r' : N) (w' : Z) : ast :=
+  mkast rem off (a_line a) col r' w' (a_err a).
+
+(* the retry loop of rune, structural on the unread input *)
+Fixpoint aloop (obq obqd : nat) (bq : nat) (rem : str) (off col : Z) (a : ast) {struct rem} : ast :=
+  match rem with
+  | [] => aret a [] (off + 1) col runeEOF 1%Z
+  | b :: t =>
+      if b <? 128 then
+        if b =? 0 then aloop obq obqd bq t (off + 1) (col + 1) a
+        else if (b =? 13) && (ahd t =? 10) then aloop obq obqd bq t (off + 1) (col + 1) a
+        else if (b =? 92) && negb (a_r a =? 92) && (ahd t =? 10) then aret a (tl t) (off + 2) col escNewl 2%Z
+        else if (b =? 92) && negb (a_r a =? 92) && (ahd t =? 13) && (ahd (tl t) =? 10)
+             then aret a (tl (tl t)) (off + 3) col escNewl 3%Z
+        else if (b =? 92) && Nat.ltb 0 obq &&
+                ((Nat.ltb bq obq && bquoteEscaped (ahd t)) || (Nat.ltb bq obqd && (ahd t =? 34)))
+             then aloop obq obqd (S bq) t (off + 1) (col + 1) a
+        else aret a t (off + 1) col b 1%Z
+      else
+        let '(rr, wd) := decode_rune rem in
+        let off' := (off + Z.of_nat wd)%Z in
+        if (rr =? RuneError) && Nat.eqb wd 1 then
+          match a_err a with
+          | None => mkast [] 0 (a_line a) col runeEOF 1%Z (Some (off, a_line a, col))
+          | Some _ => aret a (skipn wd rem) off' col rr (Z.of_nat wd)
+          end
+        else aret a (skipn wd rem) off' col rr (Z.of_nat wd)
+  end.
+
+Definition arune (obq obqd : nat) (a : ast) : ast :=
+  if a_r a =? runeEOF then a else
+  let '(l, c) := if (a_r a =? 10) || (a_r a =? escNewl) then ((a_line a + 1)%Z, 1%Z)
+                 else (a_line a, (a_col a + a_w a)%Z) in
+  aloop obq obqd 0 (a_rem a) (a_off a) c (mkast (a_rem a) (a_off a) l c (a_r a) (a_w a) (a_err a)).
+
+Definition ainit (input : str) : ast := mkast input 0%Z 1%Z 1%Z 0 0%Z None.
+
+Definition aobserve (a : ast) : obs :=
+  match a_err a with
+  | Some e => OErr e
+  | None => ORune (a_r a) (a_w a) ((a_off a - a_w a)%Z, a_line a, a_col a)
+  end.
+
+Fixpoint arune_stream (fuel : nat) (obq obqd : nat) (a : ast) : list obs :=
+  match fuel with
+  | O => []
+  | S f => let a' := arune obq obqd a in
+           if a_r a' =? runeEOF then [aobserve a'] else aobserve a' :: arune_stream f obq obqd a'
+  end.
+
+Definition atrace (obq obqd : nat) (input : str) : list obs :=
+  arune_stream (length input + 2) obq obqd (ainit input).
+
+(* what the buffered reader state stands for *)
+Definition rem (s : st) : str := skipn (bsp s) (bs s) ++ rd_src (rd s).
+Definition abs (s : st) : ast :=
+  match perr s with
+  | Some e => mkast [] 0 (line s) (col s) (r s) (w s) (Some e)
+  | None =>
+      mkast (if r s =? runeEOF then [] else rem s) (offs s + Z.of_nat (bsp s)) (line s) (col s) (r s) (w s) None
+  end.
+
 (* ---- Spec for C09: line and column of a byte offset ------------------------ *)
 Fixpoint linecol (input : str) (off : nat) (l c : Z) : Z * Z :=
   match off, input with
